@@ -435,6 +435,10 @@ func c15SubEvents(h *c15History, si int, mixed, alone []bool, idxs []int) []c15E
 func c15InProcess(c *Ctx) {
 	if c.Replay != nil {
 		var cs c15Case
+		if json.Unmarshal(c.Replay.Case, &cs) == nil && cs.Fn == "c15ManySubnets" {
+			c15ManySubnets(c)
+			return
+		}
 		if json.Unmarshal(c.Replay.Case, &cs) != nil || cs.Fn != "c15InProcess" {
 			return
 		}
@@ -444,6 +448,7 @@ func c15InProcess(c *Ctx) {
 	n := c.N(2000, 100000)
 	parallelFor(n, 0, func() bool { return c.ViolationCount() >= 20 }, func(idx int) { c15One(c, idx) })
 	c15Concurrent(c)
+	c15ManySubnets(c)
 }
 
 func c15One(c *Ctx, idx int) {
@@ -726,4 +731,60 @@ func c15Concurrent(c *Ctx) {
 	c.Ev.Count("concurrent_first_contact_admitted", admittedTotal)
 	c.Ev.Count("concurrent_first_contact_refused", refusedTotal)
 	c.Ev.Distinct("concurrent-first-contact", refusedTotal > 0)
+}
+
+// c15ManySubnets: a subnet spends its whole burst; within the same second tens of thousands of other
+// subnets are seen once each (forged UDP sources look like that) - with passes of the garbage
+// collector in between; then the first subnet asks again. Over the window from its first to its last
+// query the admitted cost is bounded by burst + rate x window, however large the table has grown.
+func c15ManySubnets(c *Ctx) {
+	for rep := 0; rep < c.N(2, 12); rep++ {
+		r := gen.New(c.Seed, "c15many", rep)
+		burst := r.Range(5, 40)
+		rate := float64(r.Range(1, 20))
+		others := gen.Pick(r, []int{20000, 40000, 70000})
+		v6 := rep%3 == 2
+		lim := limiter.NewClientLimiter(limiter.ClientLimiterOpts{Limit: rate, Burst: burst})
+		base := time.Now()
+		victim := netip.MustParseAddr("10.99.1.7")
+		if v6 {
+			victim = netip.MustParseAddr("2001:db8:99::7")
+		}
+		admitted := 0
+		for i := 0; i < burst+3; i++ { // spends the burst, the rest is refused
+			if lim.AllowN(victim, base, 1) {
+				admitted++
+			}
+		}
+		first := admitted
+		span := 200 * time.Millisecond
+		for i := 0; i < others; i++ {
+			var a netip.Addr
+			if v6 {
+				a = netip.AddrFrom16([16]byte{0x20, 0x01, byte(i >> 16), byte(i >> 8), byte(i), 0, 15: 1}) // one /48 each
+			} else {
+				a = netip.AddrFrom4([4]byte{byte(11 + i>>16), byte(i >> 8), byte(i), 1})
+			}
+			lim.AllowN(a, base.Add(span*time.Duration(i)/time.Duration(others)), 1)
+			if i%9973 == 5000 {
+				lim.VerifGC()
+			}
+		}
+		for i := 0; i < burst+3; i++ {
+			if lim.AllowN(victim, base.Add(span), 1) {
+				admitted++
+			}
+		}
+		lim.Close()
+		c.Ev.Eval(1)
+		bound := float64(burst) + rate*span.Seconds() + 1e-6
+		c.Ev.Count("many_subnets_histories", 1)
+		c.Ev.Count("many_subnets_other_subnets_seen", int64(others))
+		if float64(admitted) > bound {
+			c.Violation("conservation:table-growth", fmt.Sprintf("limit %.0f burst %d: subnet of %s was admitted cost %d at t0 and %d more %v later (bound %.1f for the whole window) after %d other subnets had been seen once each in between: its spent bucket was forgotten", rate, burst, victim, first, admitted-first, span, bound, others),
+				map[string]any{"fn": "c15ManySubnets", "rep": rep, "burst": burst, "rate": rate, "other_subnets": others, "admitted": admitted})
+			return
+		}
+		c.Ev.Distinct("many-subnets", others, v6)
+	}
 }
